@@ -310,7 +310,7 @@ func ruleC12e(c *Ctx, rule string) {
 func init() {
 	register(&PropSpec{
 		ID:          "C12",
-		Explanation: "Decides the structural clause 'every hand-over of an entry is guarded by an offset comparison and the offset is advanced only after the hand-over succeeded, per source': follower-side dedup and per-table continuation, leader-side include/advance ordering, the join offset as a max over the follower's request on a fresh spec, reconnect position advanced only after a successful insert, per-source offset keys, and the restart resume wiring shared with C02. Added clauses: every followed table is announced; follower.submit hands over with a blocking send; leader and follower hash the same key order (= C10.c).",
+		Explanation: "Decides the structural clause 'every hand-over of an entry is guarded by an offset comparison and the offset is advanced only after the hand-over succeeded, per source': follower-side dedup and per-table continuation, leader-side include/advance ordering, the join offset as a max over the follower's request on a fresh spec, reconnect position advanced only after a successful insert, per-source offset keys, and the restart resume wiring shared with C02. Added clauses: every followed table is announced; follower.submit hands over with a blocking send; leader and follower hash the same key order (= C10.c). Further clauses: makeFollows takes the per-source minimum of the tables' offsets; worker results are re-ordered with wal.Offset.After.",
 		NotDecided:  []string{"behaviour under actual fault sequences and timing (30 s/5 s/10 s start-up timers)", "gRPC delivery", "entries larger than 2 MB are discarded by follower.read (reading note)"},
 		Assumptions: []string{"wal.Offset.After is a strict total order on offsets of one source"},
 		Rules: []func(*Ctx){func(c *Ctx) { ruleC12a(c, "C12.a") }, func(c *Ctx) { ruleC12b(c, "C12.b") }, func(c *Ctx) { ruleC12c(c, "C12.c") }, func(c *Ctx) { ruleC12d(c, "C12.d") }, func(c *Ctx) { ruleC12e(c, "C12.e") }, func(c *Ctx) { ruleC02f(c, "C12.f") }, func(c *Ctx) { ruleC12h(c, "C12.h") }, func(c *Ctx) {
